@@ -333,6 +333,8 @@ impl Gen {
                         Some(vec!["kyc".to_string()])
                     }
                 }
+                // one attribute held twice (two records with the same name), the other one missing
+                "frank" if self.rng.pct(30) => Some(vec!["kyc".to_string(), "kyc".to_string()]),
                 _ => Some(vec!["kyc".to_string(), "accred".to_string(), "extra".to_string()]),
             };
             attrs.insert(a.to_string(), v);
@@ -1061,11 +1063,12 @@ impl Gen {
                     Step::SetMarker { denom: d.to_string(), kind: *self.rng.pick(&[0u8, 1, 2]) }
                 } else {
                     let a = self.acct();
-                    let names = match self.rng.below(4) {
+                    let names = match self.rng.below(5) {
                         0 => None,
                         1 => Some(vec![]),
                         2 => Some(vec!["kyc".to_string()]),
-                        _ => Some(vec!["kyc".to_string(), "accred".to_string()]),
+                        3 => Some(vec!["kyc".to_string(), "accred".to_string()]),
+                        _ => Some(vec!["accred".to_string(), "accred".to_string()]),
                     };
                     Step::SetAttrs { account: a, names }
                 }
